@@ -50,22 +50,36 @@ theorem hasCtxRaises_false {m : Mem} (hI : Inv0 m) (t : Triple) : hasCtxRaises m
   · simp [getCtxsRaises_false hI h]
   · simp [h]
 
-/-- `Memory.triples` for every one of the eight shapes: exactly the graph's matching triples, no duplicates -/
-theorem mem_triples {m : Mem} (hI : Inv m) (pat : Pat) (g : Nat) (t : Triple) :
-    t ∈ triples m pat (some g) ↔ (InG m t g ∧ pat.matches t = true) := by
+/-- `Memory.triples` for every one of the eight shapes and every context key (`none` = the union) -/
+theorem mem_triples_ctx {m : Mem} (hI : Inv m) (pat : Pat) (c : Ctx) (t : Triple) :
+    t ∈ triples m pat c ↔ ((t ∈ m.spo ∧ c ∈ getCtxs m t) ∧ pat.matches t = true) := by
   by_cases hp : pat = (none, none, none)
   · subst hp
     simp only [triples]
     rw [hI.ctxT_iff]
-    simp [InG, Pat.matches, matchPos]
-  · have : triples m pat (some g) = (cands m pat).filter (fun t => hasCtx m t (some g)) := by
+    simp [Pat.matches, matchPos]
+  · have : triples m pat c = (cands m pat).filter (fun t => hasCtx m t c) := by
       obtain ⟨ps, pp, po⟩ := pat
       cases ps <;> cases pp <;> cases po <;> first | rfl | exact (hp rfl).elim
-    rw [this, List.mem_filter, mem_cands hI.toInv0, hasCtx_iff]
-    unfold InG
+    rw [this, List.mem_filter, mem_cands hI.toInv0]
+    simp only [hasCtx, Bool.and_eq_true, decide_eq_true_eq]
     constructor
     · rintro ⟨⟨_, h2⟩, h3⟩; exact ⟨h3, h2⟩
     · rintro ⟨h3, h2⟩; exact ⟨⟨h3.1, h2⟩, h3⟩
+
+/-- `Memory.triples` for every one of the eight shapes: exactly the graph's matching triples -/
+theorem mem_triples {m : Mem} (hI : Inv m) (pat : Pat) (g : Nat) (t : Triple) :
+    t ∈ triples m pat (some g) ↔ (InG m t g ∧ pat.matches t = true) := mem_triples_ctx hI pat (some g) t
+
+/-- the union entry holds exactly the triples that are in some graph -/
+theorem union_iff {m : Mem} (hI : Inv m) (t : Triple) :
+    (t ∈ m.spo ∧ none ∈ getCtxs m t) ↔ ∃ g, InG m t g := by
+  constructor
+  · rintro ⟨h, _⟩
+    obtain ⟨c, hc⟩ := (hI.ctx_ok t h).2
+    exact ⟨c, h, hc⟩
+  · rintro ⟨g, h, _⟩
+    exact ⟨h, (hI.ctx_ok t h).1⟩
 
 theorem nodup_triples {m : Mem} (hI : Inv m) (pat : Pat) (c : Ctx) : (triples m pat c).Nodup := by
   by_cases hp : pat = (none, none, none)
